@@ -67,13 +67,14 @@ type loopInfo struct {
 	body    map[*ssa.BasicBlock]bool
 	spec    *LoopSpec
 	// state at loop head (after havoc)
-	headHeap    map[string]string
-	preHeap     map[string]string
-	headNextobj string
-	decAtHead   string
-	headGhost   map[string]string
-	preNext     string // allocation counter at loop entry
-	appendFresh bool   // appends to loop-carried slices: in-place targets must be objects allocated since loop entry
+	headHeap     map[string]string
+	preHeap      map[string]string
+	headNextobj  string
+	decAtHead    string
+	headGhost    map[string]string
+	preNext      string // allocation counter at loop entry
+	unknownSorts map[string]bool
+	appendFresh  bool // appends to loop-carried slices: in-place targets must be objects allocated since loop entry
 }
 
 type Gen struct {
